@@ -239,8 +239,9 @@ def _special_add_at(a, axis, index, b):
         sz3 *= 2
     for i1 in range(sz1):
         for i3 in range(sz3):
+            # bincount returns float64 (or int64 without weights); keep a's dtype
             a2[i1, :, i3] += np.bincount(index, b2[i1, :, i3],
-                                         minlength=a2.shape[1])
+                                         minlength=a2.shape[1]).astype(a2.dtype, copy=False)
     if iscomplextype(a.dtype):
         a2 = a2.view(a.dtype)
     return a2.reshape(a.shape)
